@@ -18,7 +18,7 @@ import Restful.Lemmas.Order
 import Restful.Lemmas.OrderJsr
 import Restful.Lemmas.C03Holds
 import Restful.Lemmas.StateShape
-import Restful.Lemmas.Translated
+import Restful.Lemmas.TieOrder
 import Restful.Lemmas.RouteUnique
 import Restful.Lemmas.Classify
 namespace Restful
@@ -577,7 +577,7 @@ theorem C03_ids_witness :
 -- also: Restful.StateShape.consts_shape
 -- also: Restful.StateShape.routing_shape
 
-/-! The regenerated tie (tools/gotrans → Gen/Translated.lean, Lemmas/Translated.lean): the decision
+/-! The regenerated tie (tools/gotrans → Gen/Translated.lean, Lemmas/Tie*.lean): the decision
     functions this property's model contains ARE the ones translated from the Go sources on this run. -/
 -- also: Restful.Tie.curly_less
 -- also: Restful.Tie.jsr_route_less
